@@ -25,6 +25,7 @@ Absent == [exists |-> FALSE]
 Chk(ok, guard, sig) == IF ok THEN <<>> ELSE <<[line |-> l, guard |-> guard, sig |-> sig]>>
 
 St0(cfg) == [cfg |-> cfg, claim |-> Absent, lastClaim |-> Absent, node |-> Absent,
+             minDl |-> -1,                           \* ghost: earliest termination time the NodeClaim ever carried
              pods |-> <<>>, vas |-> <<>>,           \* name -> record
              inst |-> <<>>,                          \* provider instance table (sequence)
              created |-> {}, notFound |-> {},        \* ghosts: pids created for the claim / reported NotFound to Karpenter
@@ -54,6 +55,9 @@ NodeDeadline == IF st.lastClaim.exists THEN st.lastClaim.terminationAt ELSE -1
 TgpSet == st.lastClaim.exists /\ st.lastClaim.tgp >= 0
 \* deadline a pod is handled under: the earliest it was queued with, else the node's current one
 DlOf(p) == IF p.uid \in DOMAIN st.qU THEN st.qU[p.uid] ELSE NodeDeadline
+\* for the ordering check at eviction time the other pods are given the benefit of the earliest deadline ever in force
+\* (the annotation may have been rewritten to a later time after the drain pass that released the second class)
+DlLenient(p) == DlMin(DlOf(p), st.minDl)
 
 \* ---------------------------------------------------------------- C09
 FinalizerRemoved(pre, post) == pre.exists /\ pre.finalizer /\ (~post.exists \/ ~post.finalizer)
@@ -97,7 +101,7 @@ PodChecks(pre, post, ok) ==
     IF ~(Karpenter /\ Ev.kind = "Pod" /\ pre.exists) THEN <<>> ELSE
     IF Ev.verb = "evict" THEN
         Chk(G_C10_EvictOnlyEvictable(pre, Ev.t, st.cfg.dndDur), "G_C10_EvictOnlyEvictable", EvictSig(pre, Ev.t, st.cfg.dndDur))
-        \o Chk(G_C10_TierOrder(pre, DlOf(pre), PodsOn(pre.node), DlOf, Ev.t, SA, st.cfg.dndDur), "G_C10_TierOrder", "at-evict")
+        \o Chk(G_C10_TierOrder(pre, DlLenient(pre), PodsOn(pre.node), DlLenient, Ev.t, SA, st.cfg.dndDur), "G_C10_TierOrder", "at-evict")
     ELSE IF Ev.verb = "delete" THEN
         \* judged on the stored pod or on the (lagging) copy the reconcile was handed: a pod seen terminating beyond
         \* the deadline may be deleted again although another delete has shortened it meanwhile
@@ -137,6 +141,7 @@ TApi ==
            claim2 == IF IsClaim /\ ok THEN post ELSE st.claim
        IN /\ st' = [st EXCEPT !.claim = claim2,
                               !.lastClaim = IF claim2.exists THEN claim2 ELSE @,
+                              !.minDl = IF claim2.exists THEN DlMin(@, claim2.terminationAt) ELSE @,
                               !.node = IF IsNode /\ ok THEN post ELSE @,
                               !.pods = IF Ev.kind = "Pod" /\ ok THEN Upd(@, Ev.name, post) ELSE @,
                               !.vas = IF Ev.kind = "VolumeAttachment" /\ ok THEN Upd(@, Ev.name, post) ELSE @]
@@ -150,6 +155,7 @@ TEnv ==
     /\ LET claim2 == IF IsClaim THEN Ev.post ELSE st.claim IN
        st' = [st EXCEPT !.claim = claim2,
                         !.lastClaim = IF claim2.exists THEN claim2 ELSE @,
+                        !.minDl = IF claim2.exists THEN DlMin(@, claim2.terminationAt) ELSE @,
                         !.node = IF IsNode THEN Ev.post ELSE @,
                         !.pods = IF Ev.kind = "Pod" THEN Upd(@, Ev.name, Ev.post) ELSE @,
                         !.vas = IF Ev.kind = "VolumeAttachment" THEN Upd(@, Ev.name, Ev.post) ELSE @]
